@@ -5,6 +5,22 @@ import ast
 from .pymodel import AnalysisError, parent, ancestors, enclosing_stmt
 
 
+def ast_copy(node):
+    """Deep copy of an AST (or list of nodes) that does not follow the _parent back pointers."""
+    if isinstance(node, list):
+        return [ast_copy(x) for x in node]
+    if not isinstance(node, ast.AST):
+        return node
+    new = node.__class__()
+    for f in node._fields:
+        if hasattr(node, f):
+            setattr(new, f, ast_copy(getattr(node, f)))
+    for a in node._attributes:
+        if hasattr(node, a):
+            setattr(new, a, getattr(node, a))
+    return new
+
+
 def src(node):
     """Normalised source text of a node (parentheses, spacing, quotes and
     line breaks normalised by ast.unparse)."""
@@ -192,14 +208,14 @@ class _Expander(ast.NodeTransformer):
             v = unique_binding(self.fnode, node.id)
             if v is not None and not any(isinstance(x, (ast.Yield, ast.Await, ast.Lambda)) for x in ast.walk(v)):
                 import copy
-                return _Expander(self.fnode, self.depth - 1).visit(copy.deepcopy(v))
+                return _Expander(self.fnode, self.depth - 1).visit(ast_copy(v))
         return node
 
 
 def expand_names(fnode, expr, depth=3):
     """Copy of expr with single-assignment local names replaced by their defining expressions."""
     import copy
-    e = copy.deepcopy(expr)
+    e = ast_copy(expr)
     out = _Expander(fnode, depth).visit(e)
     return ast.fix_missing_locations(out)
 
@@ -418,7 +434,7 @@ def loc(finfo_or_mod, node):
 def alpha_src(expr):
     """Normalised text with comprehension / lambda variables renamed canonically (alpha-equivalence)."""
     import copy
-    e = copy.deepcopy(expr)
+    e = ast_copy(expr)
     counter = [0]
 
     def rename_in(node, mapping):
